@@ -98,6 +98,32 @@ def enum_units(tier, seed):
                                        db(L(0xDD)), {"k": "label", "n": "lb_deep"}] + twins.nest(depth - 1, inner, kinds)},
                   db(["id", "kx_deep"])]
             cases.append({"rom": "low", "files": {}, "ir": ir, "twin_seed": depth})
+    # one name in several roles, and one named scope written in several pieces
+    dl = lambda *n: {"k": "data", "d": "dl", "es": [["id", x] for x in n]}
+    lab = lambda n: {"k": "label", "n": n}
+    org = {"k": "org", "a": 0x038000}
+    mp = {"k": "macro", "n": "m_p", "ps": ["p_px"], "b": [db(["id", "p_px"])]}
+    extra = [
+        # a named scope opened twice: both pieces export under the same prefix
+        [org, dl("sc_r.lb_x", "sc_r.lb_y"), {"k": "scope", "n": "sc_r", "b": [db(L(1)), lab("lb_x"), db(L(2))]}, dl("sc_r.lb_x", "sc_r.lb_y"),
+         {"k": "scope", "n": "sc_r", "b": [db(L(3)), lab("lb_y"), db(L(4)), dl("lb_y")]}, dl("sc_r.lb_x", "sc_r.lb_y")],
+        # a label named like a macro, like a named scope and like a loop variable / parameter used elsewhere
+        [org, mp, lab("m_p"), {"k": "call", "n": "m_p", "args": [L(7)]}, dl("m_p"), {"k": "call", "n": "m_p", "args": [["bin", "&", ["id", "m_p"], L(0xFF)]]}],
+        [org, lab("sc_r"), db(L(1)), {"k": "scope", "n": "sc_r", "b": [db(L(2)), lab("lb_x"), dl("lb_x", "sc_r")]}, dl("sc_r", "sc_r.lb_x")],
+        [org, mp, lab("p_px"), db(L(0xAA)), lab("i_0"), {"k": "call", "n": "m_p", "args": [L(3)]}, {"k": "for", "v": "i_0", "lo": L(1), "hi": L(3), "b": [db(["id", "i_0"])]},
+         dl("p_px", "i_0"), {"k": "call", "n": "m_p", "args": [["bin", "&", ["id", "i_0"], L(0xFF)]]}],
+        # a named scope inside a body that is expanded twice: each expansion exports its own
+        [org, {"k": "macro", "n": "m_s", "ps": ["p_sx"], "b": [{"k": "scope", "n": "sc_m", "b": [db(["id", "p_sx"]), lab("lb_in")]}, dl("sc_m.lb_in")]},
+         {"k": "call", "n": "m_s", "args": [L(1)]}, {"k": "call", "n": "m_s", "args": [L(2)]}],
+        [org, {"k": "for", "v": "i_0", "lo": L(0), "hi": L(2), "b": [dl("sc_l.lb_in"), {"k": "scope", "n": "sc_l", "b": [db(["id", "i_0"]), lab("lb_in")]}, dl("sc_l.lb_in")]}],
+        # a named scope inside a named scope: the inner export is visible in the outer one under the inner prefix
+        [org, {"k": "scope", "n": "sc_o", "b": [db(L(1)), {"k": "scope", "n": "sc_i", "b": [db(L(2)), lab("lb_in"), db(L(3))]}, dl("sc_i.lb_in"), lab("lb_o")]}, dl("sc_o.lb_o")],
+        # a := constant and a label of the same name in sibling scopes, and the same name at the top level
+        [{"k": "const", "n": "kx_q", "e": L(0x11), "eager": True}, org, {"k": "block", "b": [lab("kx_q"), dl("kx_q")]}, {"k": "block", "b": [{"k": "const", "n": "kx_q", "e": L(0x22), "eager": True}, db(["id", "kx_q"])]},
+         {"k": "block", "b": [{"k": "const", "n": "kx_q", "e": L(0x123456), "eager": False}, dl("kx_q")]}, db(["id", "kx_q"])],
+    ]
+    for i, ir in enumerate(extra):
+        cases.append({"rom": "low", "files": {}, "ir": ir, "twin_seed": 100 + i})
     return {"units": [{"cases": cases[i::8]} for i in range(8)], "exhaustive": False}
 
 
